@@ -342,12 +342,20 @@ def h_xsd(ch: Chooser, kind: str):
     g = run_generation(sources, None, opts, conv)
     try:
         bad = check_generated(g, case, f"{kind}/{slot_kind(desc)}")
+        if bad and oname.startswith("class_name=") and "Xml Text does not support typing `list[pkgx.main." in str(bad.get("detail")) and mode_of(desc) in ("pair", "triple"):
+            # class names in a field-like case: the inner class of an anonymous type gets the very name of a sibling field and replaces it in the class body
+            bad["bucket"] = "KF/inner-class-named-like-a-sibling-field-under-non-pascal-class-names"
         if bad:
             return bad
         return dict(ok=True, case=case, obs="codegen-error" if g.error is not None else "ok", nontrivial=h((kind, desc, oname)),
                     counters={"codegen_error": 1} if g.error is not None else {})
     finally:
         g.cleanup()
+
+
+def mode_of(desc: str) -> str:
+    n = 0 if desc == "default names" else len(desc.split(", "))
+    return {0: "none", 1: "single", 2: "pair", 3: "triple"}[n]
 
 
 def slot_kind(desc: str) -> str:
@@ -377,6 +385,10 @@ def h_samples_xml(ch: Chooser, max_elems: int):
     g = run_generation(sources, None, opts, conv)
     try:
         bad = check_generated(g, case, "xml-samples")
+        if bad and "unsupported operand type(s) for |: 'type' and 'str'" in str(bad.get("detail")):
+            bad["bucket"] = "KF/sample-with-same-named-nested-elements-renders-a-union-with-a-quoted-forward-reference"
+        elif bad and bad["bucket"] == "xml-samples/duplicate-class-name" and len({d.count("xmlns") > 0 for d in sources.values()}) >= 1 and any('xmlns=""' in d for d in sources.values()):
+            bad["bucket"] = "KF/samples-with-one-local-name-in-and-out-of-a-namespace-yield-one-class-twice"
         if bad:
             return bad
         return dict(ok=True, case=case, obs="codegen-error" if g.error is not None else "ok", nontrivial=h((tuple(sources.values()), oname)))
@@ -442,7 +454,8 @@ def run(tier: str, seed: int) -> int:
     # names are free dimensions (all singles, all colliding pairs); options are deviations (bound 1 = every single option set)
     opt_bound = 1 if th else 0
     for kind in ("xsd", "xsd-no-namespace", "dtd"):
-        tasks.extend(split_deep(("c07.xsd", dict(kind=kind), opt_bound, ()), short=4, rounds=3))
+        # (thorough: every option set x every hostile assignment on the namespaced XSD skeleton; the two other skeletons keep the default options)
+        tasks.extend(split_deep(("c07.xsd", dict(kind=kind), opt_bound if kind == "xsd" else 0, ()), short=4, rounds=3))
     tasks.extend(split_deep(("c07.xsd", dict(kind="xsd-two-namespaces"), 0, ()), short=4, rounds=3))
     # every option set on the default names (and on a fixed hostile assignment) in both tiers
     tasks.append(("c07.xsd", dict(kind="xsd"), 1, (0,)))
@@ -454,7 +467,7 @@ def run(tier: str, seed: int) -> int:
         PROP, tier, seed, "exploration", stats, t0,
         rule=(f"XSD skeleton (with / without target namespace) and DTD skeleton with {len(SLOTS)} name slots (root, elements, attributes, complex and simple type names, enumeration values): every "
               f"single slot x {len(HOSTILE_NCNAMES)} hostile names ({len(HOSTILE_VALUES)} for enumeration values), every same-scope slot pair x {len(COLLISIONS)}+ colliding name pairs, {len(SAME_SCOPE3)} same-scope slot triples x {len(COLLISIONS3)} three-way collisions x 3 rotations"
-              f"{', each x ' + str(len(OPTIONS)) + ' option sets' if th else ''}; every option set on the default names; irregular XML samples (all G-tree documents within the bound, one or two per set) and JSON "
+              f"{', each x ' + str(len(OPTIONS)) + ' option sets on the namespaced XSD skeleton' if th else ''}; every option set on the default names; irregular XML samples (all G-tree documents within the bound, one or two per set) and JSON "
               f"samples (10 shapes x hostile keys) x option sets. Oracle: success or CodegenError within {WATCHDOG_S}s; every module compiles and imports; every class builds binding metadata and "
               "is instantiable; no duplicate field / class names in any scope; no module defines a class under a name it also imports."),
         assumptions=["stand-ins for jinja2 / toposort / click / ruff (ruff is a no-op: nothing about formatting is checked)", f"termination is a {WATCHDOG_S}s watchdog, not a proof",
